@@ -12,10 +12,12 @@ EXHAUSTIVE = {"quick": False, "thorough": True}
 TECHNIQUE = "Lean 4 theorems (decide +kernel over the regenerated dispatch tables, numpy opaque) + translator + differential run against numpy"
 LEVEL_TEXT = ("Proof over the regenerated operator tables: for every field class and every operator it supports, for every numpy, "
               "the forward form applies the documented symbol to (self, other), the reflected form to (other, self), the result is a "
-              "fresh in-memory field. numpy's arithmetic itself is the property's right-hand side and stays opaque.")
+              "fresh in-memory field, and its declared dtype is numpy's: the regenerated `dtype_to_str` chain names each of the 11 result "
+              "dtypes exactly, is injective, and refuses anything else. numpy's arithmetic itself is the property's right-hand side and "
+              "stays opaque.")
 LEVEL_NOTE = ("Trusted: Lean kernel; tools/translate.py (AST extraction of the 128-row dunder table, the 18 FieldDataOps methods and "
-              "the two helpers); the differential run (all operators x operand kinds x dtype pairs in thorough, a seeded sample in quick) "
-              "for everything not table shaped (unwrap of Field operands, dtype_to_str, write of the result, DataFrame.__setitem__).")
+              "the two helpers; tools/translate_dtype.py: the dtype_to_str chain); the differential run (all operators x operand kinds x dtype pairs in thorough, a seeded sample in quick) "
+              "for everything not table shaped (unwrap of Field operands, that numpy's `==` identifies a dtype with its scalar type, write of the result, DataFrame.__setitem__).")
 RULE = ("cases = (class in 6 field classes) x (each operator the class supports) x (other operand: NumericMemField / ndarray / scalar) x "
         "(dtype pairs incl. bool, mixed widths, float with inf, negative divisors) x (data: empty, zeros, mixed signs); quick runs a seeded "
         "sample stratified so that every (class, operator) is hit at least twice; non-trivial = non-empty operands whose result differs "
